@@ -410,7 +410,12 @@ class HostConnection(object):
         self._connection = session.cluster.connection_factory(host.endpoint, on_orphaned_stream_released=self.on_orphaned_stream_released)
         self._keyspace = session.keyspace
         if self._keyspace:
-            self._connection.set_keyspace_blocking(self._keyspace)
+            try:
+                self._connection.set_keyspace_blocking(self._keyspace)
+            except Exception:
+                # the session never gets this pool, so nothing else would close the connection
+                self._connection.close()
+                raise
         log.debug("Finished initializing connection for host %s", self.host)
 
     def _get_connection(self):
@@ -619,13 +624,20 @@ class HostConnectionPool(object):
 
         log.debug("Initializing new connection pool for host %s", self.host)
         core_conns = session.cluster.get_core_connections_per_host(host_distance)
-        self._connections = [session.cluster.connection_factory(host.endpoint, on_orphaned_stream_released=self.on_orphaned_stream_released)
-                             for i in range(core_conns)]
+        self._connections = []
+        try:
+            for i in range(core_conns):
+                self._connections.append(session.cluster.connection_factory(host.endpoint, on_orphaned_stream_released=self.on_orphaned_stream_released))
 
-        self._keyspace = session.keyspace
-        if self._keyspace:
+            self._keyspace = session.keyspace
+            if self._keyspace:
+                for conn in self._connections:
+                    conn.set_keyspace_blocking(self._keyspace)
+        except Exception:
+            # the session never gets this pool, so nothing else would close the connections opened so far
             for conn in self._connections:
-                conn.set_keyspace_blocking(self._keyspace)
+                conn.close()
+            raise
 
         self._trash = set()
         self._next_trash_allowed_at = time.time()
